@@ -59,8 +59,7 @@ def run():
     docs_ok = 0
     for (doc, opts, label, contract, single), res in zip(jobs, results):
         counts["cli_runs"] = counts.get("cli_runs", 0) + 1
-        if res.timeout:
-            r.inconclusive.append("CLI run timed out: " + label)
+        if clirun.watchdog(res, r, label):
             continue
         if res.rc != 0:
             r.witness("CLI exits with status %s" % res.rc, {"doc": label, "opts": opts, "stderr": res.stderr_tail[-600:]})
